@@ -106,6 +106,194 @@ func (k *checker) save1On(fn, schemaFn *ssa.Function, name string) {
 			}
 			return true
 		}, 1)
+	k.save2(rep, fn, name)
+}
+
+func (k *checker) noteSaveAct(fn *ssa.Function, in ssa.Instruction) {
+	if k.saveActs == nil {
+		k.saveActs = map[*ssa.Function][]ssa.Instruction{}
+	}
+	k.saveActs[fn] = append(k.saveActs[fn], in)
+}
+
+// SAVE-2: Save always writes. Every path from the entry of Save to a normal return puts
+// the bytes into the file; the only skips accepted are "nothing to save to": the nil test
+// of the saver itself and the emptiness test of its own path field. A return guarded by
+// anything else — in particular a comparison of version counters ("unchanged since the
+// last save") — skips edits that do not move that counter (create/delete node, metadata,
+// parameter name/description) and is a violation.
+func (k *checker) save2(rep reporter, fn *ssa.Function, name string) {
+	acts := k.saveActs[fn]
+	construct := name + "#always-writes"
+	if len(acts) == 0 {
+		rep.undecide("SAVE-2", construct, fn.Pos(), "the write was not located (see SAVE-1)")
+		return
+	}
+	fi := newFnInfo(fn)
+	recv := fn.Params[0]
+	cut := map[flow.Edge]bool{}
+	for _, b := range fn.Blocks {
+		ifi := flow.IfOf(b)
+		if ifi == nil {
+			continue
+		}
+		bo, eqK, ok := equalEdgeOf(ifi.Cond)
+		if !ok {
+			continue
+		}
+		for _, sw := range [][2]ssa.Value{{bo.X, bo.Y}, {bo.Y, bo.X}} {
+			x, y := sw[0], sw[1]
+			// gs == nil
+			if x == ssa.Value(recv) && flow.IsNilConst(y) {
+				cut[flow.Edge{From: b, K: eqK}] = true
+			}
+			// gs.savePath == ""  /  len(gs.savePath) == 0
+			if isZeroConst(y) {
+				v := x
+				if c, isC := x.(*ssa.Call); isC && ssau.Builtin(c) == "len" {
+					v = c.Call.Args[0]
+				}
+				if isStr(v.Type()) && strings.HasPrefix(fi.prov(v), recv.Name()+".") && !strings.ContainsAny(fi.prov(v), "()[]{}") {
+					cut[flow.Edge{From: b, K: eqK}] = true
+				}
+			}
+		}
+	}
+	isAct := func(in ssa.Instruction) bool {
+		for _, a := range acts {
+			if a == in {
+				return true
+			}
+		}
+		return false
+	}
+	for _, b := range fn.Blocks {
+		if len(b.Instrs) == 0 {
+			continue
+		}
+		r, ok := b.Instrs[len(b.Instrs)-1].(*ssa.Return)
+		if !ok || isErrorReturn(r) || b == fn.Recover {
+			continue
+		}
+		if flow.PathAvoiding(fn, nil, r, isAct, cut) {
+			rep.violate("SAVE-2", construct, ssau.PosOf(r),
+				"Save can return normally without writing the file, on a condition other than 'no saver / no path configured' (e.g. a model-version or dirty-flag comparison): edits that do not move that condition — creating or deleting a node, metadata, a parameter's name or description — are never written, and the file on disk is not the current graph",
+				fmt.Sprintf("%d accepted skip edge(s) (nil saver / empty path)", len(cut)))
+			return
+		}
+	}
+	rep.hold("SAVE-2", construct, fn.Pos(), fmt.Sprintf("every path to a normal return writes the file; %d accepted skip edge(s) (nil saver / empty path)", len(cut)))
+}
+
+// SAVE-3: every save uses a fresh encoder. The jbtf encoder accumulates buffers and buffer
+// views; the encoder handed to EncodeToAppSchema and asked for the bytes (ToPgtf) must be
+// created by the saving function itself (new / composite literal, or the result of a call),
+// never loaded from a field of a longer-lived object or from a package-level variable —
+// otherwise the payloads of earlier saves stay in the file and it grows with every save.
+func (k *checker) save3() {
+	fn := k.fn("generator", "App.Schema")
+	if fn == nil {
+		return
+	}
+	k.save3On(fn, k.c.P.FuncName(fn))
+}
+
+func (k *checker) save3On(fn *ssa.Function, name string) {
+	rep := k.rep(fn.Pos())
+	construct := name + "#fresh-encoder"
+	isEnc := func(t types.Type) bool {
+		p, ok := t.Underlying().(*types.Pointer)
+		return ok && isNamedType(p.Elem(), jbtfPath, "Encoder")
+	}
+	var uses []ssa.Value
+	var at []ssa.Instruction
+	ssau.AllInstrs(fn, func(in ssa.Instruction) {
+		c, ok := in.(*ssa.Call)
+		if !ok {
+			return
+		}
+		for _, a := range c.Common().Args {
+			if isEnc(a.Type()) {
+				uses = append(uses, a)
+				at = append(at, c)
+			}
+		}
+	})
+	if len(uses) == 0 {
+		rep.undecide("SAVE-3", construct, fn.Pos(), "no *jbtf.Encoder is passed to any call in the saving function")
+		return
+	}
+	// fresh: every origin of the value (through phis and local variables) is an allocation or a call result of this function
+	var stale func(v ssa.Value, seen map[ssa.Value]bool) string
+	stale = func(v ssa.Value, seen map[ssa.Value]bool) string {
+		if seen[v] {
+			return ""
+		}
+		seen[v] = true
+		switch x := flow.StripAll(v).(type) {
+		case *ssa.Alloc:
+			return ""
+		case *ssa.Call:
+			return ""
+		case *ssa.Phi:
+			for _, e := range x.Edges {
+				if why := stale(e, seen); why != "" {
+					return why
+				}
+			}
+			return ""
+		case *ssa.UnOp:
+			if al, ok := x.X.(*ssa.Alloc); ok {
+				// a local variable holding the encoder
+				for _, r := range ssau.Refs(al) {
+					if s, ok := r.(*ssa.Store); ok && s.Addr == ssa.Value(al) {
+						if why := stale(s.Val, seen); why != "" {
+							return why
+						}
+					}
+				}
+				return ""
+			}
+			if fv, _ := flow.FieldBase(x.X); fv != nil {
+				return "loaded from field " + fv.Name() + " of a longer-lived object"
+			}
+			if g, ok := x.X.(*ssa.Global); ok {
+				return "loaded from the package-level variable " + g.Name()
+			}
+			return "loaded from memory that outlives the call"
+		case *ssa.Parameter:
+			return "received as parameter " + x.Name() + " (its freshness is the caller's business)"
+		case *ssa.Global:
+			return "the package-level variable " + x.Name()
+		}
+		return "of unknown origin"
+	}
+	for i, u := range uses {
+		if why := stale(u, map[ssa.Value]bool{}); why != "" {
+			if strings.HasPrefix(why, "received as parameter") || why == "of unknown origin" {
+				rep.undecide("SAVE-3", construct, ssau.PosOf(at[i]), "the encoder is "+why)
+			} else {
+				rep.violate("SAVE-3", construct, ssau.PosOf(at[i]),
+					"the encoder used for this save is "+why+": it still holds the buffers and buffer views of earlier saves, so every save appends to them — the file grows with each save and a freshly started application writes different bytes for the same graph")
+			}
+			return
+		}
+	}
+	// one encoder for the whole save: what is filled by EncodeToAppSchema is what produces the bytes
+	origin := func(v ssa.Value) ssa.Value {
+		v = flow.StripAll(v)
+		if ld, ok := v.(*ssa.UnOp); ok {
+			return ld.X
+		}
+		return v
+	}
+	for i := 1; i < len(uses); i++ {
+		if origin(uses[i]) != origin(uses[0]) {
+			rep.violate("SAVE-3", construct, ssau.PosOf(at[i]), "the save uses two different encoders: the payloads collected while encoding the graph are not in the encoder that produces the file")
+			return
+		}
+	}
+	rep.hold("SAVE-3", construct, fn.Pos(), fmt.Sprintf("%d use(s) of one encoder created by this call of the saving function", len(uses)))
 }
 
 // save1Writer analyses the function that performs the file write. isBytes recognises the
@@ -145,6 +333,7 @@ func (k *checker) save1Writer(rep reporter, fn *ssa.Function, name string, isByt
 			}
 		})
 		if hand != nil {
+			k.noteSaveAct(fn, hand)
 			g := hand.Common().StaticCallee()
 			// the helper's error must be handled by the caller
 			if sig := g.Signature; sig.Results().Len() > 0 && types.Identical(sig.Results().At(sig.Results().Len()-1).Type(), errType) {
@@ -246,6 +435,9 @@ func (k *checker) save1Writer(rep reporter, fn *ssa.Function, name string, isByt
 			sinks = append(sinks, c)
 		}
 	})
+	for _, w := range writes {
+		k.noteSaveAct(fn, w)
+	}
 	if nBytesWrites == 0 && len(problems) == 0 {
 		rep.undecide("SAVE-1", name+"#bytes", fn.Pos(), "no os.WriteFile / (*os.File).Write of the Schema() bytes found (writer idiom not recognised)")
 		return
